@@ -64,7 +64,7 @@ fn matrix(n: usize, p: usize, f: Flavor) -> impl Strategy<Value = Vec<Vec<f64>>>
 }
 
 pub fn case_strategy(tier: Tier, dom: Dom) -> impl Strategy<Value = Case> {
-    let max_m = tier.pick(12usize, 16usize);
+    let max_m = tier.pick(12usize, 40usize);
     let m = prop_oneof![
         1 => Just(0usize),
         2 => Just(1usize),
@@ -78,7 +78,7 @@ pub fn case_strategy(tier: Tier, dom: Dom) -> impl Strategy<Value = Case> {
             matrix(6, p, dom.flavor),
             proptest::collection::vec((0u8..3, any::<u16>()), m),
             proptest::collection::vec(any::<u16>(), m),
-            proptest::collection::vec(any::<u16>(), 0..=(2 * m).min(16)),
+            proptest::collection::vec(any::<u16>(), 0..=(2 * m).min(24)),
             any::<[u8; 3]>(),
             any::<u64>(),
         )
